@@ -50,9 +50,16 @@ pub open spec fn splitn_spec(s: Seq<char>, n: nat, sep: char) -> Seq<Seq<char>>
 }
 proof fn lemma_first_sep(s: Seq<char>, sep: char)
     ensures 0 <= first_sep(s, sep) <= s.len(),
+        first_sep(s, sep) < s.len() ==> s[first_sep(s, sep)] == sep,
+        forall|k: int| 0 <= k < first_sep(s, sep) ==> s[k] != sep,
     decreases s.len()
 {
-    if s.len() > 0 && s[0] != sep { lemma_first_sep(s.drop_first(), sep); }
+    if s.len() > 0 && s[0] != sep {
+        lemma_first_sep(s.drop_first(), sep);
+        assert forall|k: int| 0 <= k < first_sep(s, sep) implies s[k] != sep by {
+            if k > 0 { assert(s.drop_first()[k - 1] == s[k]); }
+        }
+    }
 }
 /// `splitn` yields at least one piece (even for the empty string) and at most n
 proof fn lemma_splitn_len(s: Seq<char>, n: nat, sep: char)
@@ -75,6 +82,43 @@ proof fn lemma_splitn_first(s: Seq<char>, n: nat, sep: char)
 {
     reveal(splitn_spec);
 }
+/// the pieces put together again with the separator between them
+pub open spec fn join(p: Seq<Seq<char>>, sep: char) -> Seq<char>
+    decreases p.len()
+{
+    if p.len() == 0 { Seq::<char>::empty() } else if p.len() == 1 { p[0] } else { p[0] + seq![sep] + join(p.drop_first(), sep) }
+}
+pub open spec fn has_sep(t: Seq<char>, sep: char) -> bool { exists|k: int| 0 <= k < t.len() && t[k] == sep }
+/// sanity of the definition of splitn_spec: the split loses no character (joining the pieces gives the text
+/// back) and only the n-th piece can contain the separator
+proof fn lemma_splitn_lossless(s: Seq<char>, n: nat, sep: char)
+    requires n >= 1,
+    ensures
+        join(splitn_spec(s, n, sep), sep) == s,
+        forall|i: int| 0 <= i < splitn_spec(s, n, sep).len() && i < n - 1 ==> !has_sep(#[trigger] splitn_spec(s, n, sep)[i], sep),
+    decreases n
+{
+    reveal(splitn_spec);
+    lemma_first_sep(s, sep);
+    let i = first_sep(s, sep);
+    if n == 1 || i >= s.len() {
+        assert(splitn_spec(s, n, sep) =~= seq![s]);
+    } else {
+        let tail = s.subrange(i + 1, s.len() as int);
+        let head = s.subrange(0, i);
+        lemma_splitn_lossless(tail, (n - 1) as nat, sep);
+        lemma_splitn_len(tail, (n - 1) as nat, sep);
+        let p = splitn_spec(s, n, sep);
+        let q = splitn_spec(tail, (n - 1) as nat, sep);
+        assert(p == seq![head] + q);
+        assert(p.drop_first() =~= q);
+        assert(p[0] == head);
+        assert(head + seq![sep] + tail =~= s);
+        assert forall|k: int| 0 <= k < p.len() && k < n - 1 implies !has_sep(#[trigger] p[k], sep) by {
+            if k > 0 { assert(p[k] == q[k - 1]); }
+        }
+    }
+}
 proof fn lemma_trim_idempotent(s: Seq<char>)
     ensures trim_end_spec(trim_end_spec(s)) == trim_end_spec(s),
     decreases s.len()
@@ -91,6 +135,21 @@ impl Str {
     #[verifier::external_body]
     pub fn empty() -> (r: &'static Str)
         ensures r@ == Seq::<char>::empty(),
+    { unimplemented!() }
+    /// `String::new()`
+    #[verifier::external_body]
+    pub fn new() -> (r: Str)
+        ensures r@ == Seq::<char>::empty(),
+    { unimplemented!() }
+    /// `String::clear`
+    #[verifier::external_body]
+    pub fn clear(&mut self)
+        ensures final(self)@ == Seq::<char>::empty(),
+    { unimplemented!() }
+    /// any other string literal used as a `&str`
+    #[verifier::external_body]
+    pub fn lit(s: &'static str) -> (r: &'static Str)
+        ensures r@ == s@,
     { unimplemented!() }
     /// `str::trim_end` (ASSUMED std contract: trim_end_spec)
     #[verifier::external_body]
@@ -255,6 +314,26 @@ pub open spec fn bed_rest(line: Seq<char>) -> Seq<char> {
     if bed_cols(line).len() >= 4 { bed_cols(line)[3] } else { Seq::<char>::empty() }
 }
 
+/// what the column vocabulary means (consequences of the definitions, no code involved): the columns of a
+/// line, put together with tabs, ARE the line without its trailing whitespace -- nothing is lost, in particular
+/// `rest` is everything behind the third tab; chrom, start, end (and the bedGraph value) contain no tab
+proof fn lemma_line_is_its_columns(line: Seq<char>)
+    ensures
+        
+        join(bed_cols(line), '\t') == trim_end_spec(line),
+        forall|i: int| 0 <= i < bed_cols(line).len() && i < 3 ==> !has_sep(#[trigger] bed_cols(line)[i], '\t'),
+        
+        join(bg_cols(line), '\t') == trim_end_spec(line),
+        forall|i: int| 0 <= i < bg_cols(line).len() && i < 4 ==> !has_sep(#[trigger] bg_cols(line)[i], '\t'),
+        
+        1 <= bed_cols(line).len() <= 4, 1 <= bg_cols(line).len() <= 5,
+{
+    lemma_splitn_lossless(trim_end_spec(line), 4, '\t');
+    lemma_splitn_lossless(trim_end_spec(line), 5, '\t');
+    lemma_splitn_len(trim_end_spec(line), 4, '\t');
+    lemma_splitn_len(trim_end_spec(line), 5, '\t');
+}
+
 // ================= (1) parse_bed / parse_bedgraph =================
 // The immediately-invoked closure `let res = (|| { BODY })();` is cut out as its own function (extract kind
 // `closure`, rule R10): `fn parse_bed_fields(split: &mut VSplit, s: &Str) -> Result<..> { BODY }` -- BODY verbatim,
@@ -397,23 +476,75 @@ pub fn parse_bedgraph<'a>(s: &'a Str) -> (r: Option<Result<(&'a Str, Value), Bed
 }
 
 // ================= (2) BedFileStream::next =================
-/// `StreamingLineReader<B>` (utils/file/streaming_linereader.rs): `read()` clears its buffer, reads one line with
-/// `BufRead::read_line`, returns `None` at end of file (0 bytes read), the line (already `trim_end`ed) or the
-/// I/O error.  Model: the outcomes of the reads still to come, `lines()`; each `read` pops one; at the end it
-/// stays at the end.  `text` = the line as it stands in the file (without promise about its line terminator:
-/// the parse functions trim again).
+/// `B: BufRead` under the line reader (`BufReader<File>`, `BufReader<Stdin>`, ...).  Model: the outcomes of the
+/// `read_line` calls still to come, `lines()`: `Ok(text)` = one line of the file INCLUDING its terminator (so it
+/// is never empty: the last line may lack the '\n' but has at least one character), `Err(e)` = that read fails.
 #[verifier::external_body]
-pub struct VLineReader { _p: u8 }
-impl VLineReader {
+pub struct VBufRead { _p: u8 }
+impl VBufRead {
     pub uninterp spec fn lines(&self) -> Seq<Result<Seq<char>, IoErr>>;
+    /// `BufRead::read_line(&mut String)` (ASSUMED std contract): at end of file `Ok(0)` and nothing changes;
+    /// otherwise the next line is APPENDED to `buf` and its (positive) byte count returned, or the read fails
+    /// (nothing is promised about `buf` then).
     #[verifier::external_body]
-    pub fn read<'a>(&'a mut self) -> (r: Option<Result<&'a Str, IoErr>>)
+    pub fn read_line(&mut self, buf: &mut Str) -> (r: Result<usize, IoErr>)
         ensures
-            old(self).lines().len() == 0 ==> r is None && final(self).lines() == old(self).lines(),
-            old(self).lines().len() > 0 ==> r is Some && final(self).lines() == old(self).lines().drop_first(),
-            old(self).lines().len() > 0 && old(self).lines()[0] is Err ==> r == Some(Err::<&'a Str, IoErr>(old(self).lines()[0]->Err_0)),
-            old(self).lines().len() > 0 && old(self).lines()[0] is Ok ==> r->Some_0 is Ok && r->Some_0->Ok_0@ == trim_end_spec(old(self).lines()[0]->Ok_0),
+            old(self).lines().len() == 0 ==> r == Ok::<usize, IoErr>(0) && final(self).lines() == old(self).lines() && final(buf)@ == old(buf)@,
+            old(self).lines().len() > 0 ==> final(self).lines() == old(self).lines().drop_first(),
+            old(self).lines().len() > 0 ==> (old(self).lines()[0] matches Ok(t) ==> r is Ok && r->Ok_0 > 0 && final(buf)@ == old(buf)@ + t),
+            old(self).lines().len() > 0 ==> (old(self).lines()[0] matches Err(e) ==> r == Err::<usize, IoErr>(e)),
     { unimplemented!() }
+}
+/// `BufReader::new(file)`: buffering is transparent
+pub fn buf_reader_new(file: VBufRead) -> (r: VBufRead)
+    ensures r == file,
+{ file }
+
+// `StreamingLineReader<B>` (utils/file/streaming_linereader.rs): extracted and VERIFIED (not a shim)
+pub struct StreamingLineReader {
+    pub current_line: Str,
+    pub buf_read: VBufRead,
+}
+impl StreamingLineReader {
+    /// the lines not read yet
+    pub open spec fn lines(&self) -> Seq<Result<Seq<char>, IoErr>> { self.buf_read.lines() }
+pub fn new(bf: VBufRead) -> (r: StreamingLineReader)
+    ensures
+        
+        r.lines() == bf.lines(),
+{
+        StreamingLineReader {
+            current_line: Str::new(),
+            buf_read: bf,
+        }
+    }
+pub fn read(&mut self) -> (r: Option<Result<&'_ Str, IoErr>>)
+    ensures
+        
+        r is None <==> old(self).lines().len() == 0,
+        
+        old(self).lines().len() > 0 ==> final(self).lines() == old(self).lines().drop_first(),
+        old(self).lines().len() == 0 ==> final(self).lines() == old(self).lines(),
+        
+        old(self).lines().len() > 0 ==> (old(self).lines()[0] matches Ok(t) ==>
+            r is Some && r->Some_0 is Ok && r->Some_0->Ok_0@ == trim_end_spec(t)),
+        
+        old(self).lines().len() > 0 ==> (old(self).lines()[0] matches Err(e) ==>
+            r == Some(Err::<&Str, IoErr>(e))),
+    decreases
+        
+        old(self).lines().len(),
+{
+        self.current_line.clear();
+
+        assert(self.current_line@ =~= Seq::<char>::empty()); 
+        proof { assert forall|t: Seq<char>| (#[trigger] (Seq::<char>::empty() + t)) == t by { assert(Seq::<char>::empty() + t =~= t); } }
+        match self.buf_read.read_line(&mut self.current_line) {
+            Ok(size) if size == 0 => None,
+            Ok(_) => Some(Ok(self.current_line.trim_end())),
+            Err(e) => Some(Err(e)),
+        }
+    }
 }
 
 /// what an item of the stream says, for comparison with the specification: texts by content
@@ -473,16 +604,30 @@ proof fn lemma_items_ignore_trailing_whitespace(t: Seq<char>)
 // instantiation; the field itself becomes a unit marker.
 pub struct ParserBed;
 pub struct ParserBedGraph;
+/// `parse: parse_bed` / `parse: parse_bedgraph` in the constructors (fn item -> fn pointer): the marker of that
+/// function.  (A constructor that wires the other function does not type-check here, as in the repository.)
+pub fn fnptr_parse_bed() -> ParserBed { ParserBed }
+pub fn fnptr_parse_bedgraph() -> ParserBedGraph { ParserBedGraph }
 pub struct BedFileStreamBed {
-    pub bed: VLineReader,
+    pub bed: StreamingLineReader,
     pub parse: ParserBed,
 }
 pub struct BedFileStreamBedGraph {
-    pub bed: VLineReader,
+    pub bed: StreamingLineReader,
     pub parse: ParserBedGraph,
 }
 
 impl BedFileStreamBed {
+pub fn from_bed_file(file: VBufRead) -> (r: BedFileStreamBed)
+    ensures
+        
+        r.bed.lines() == file.lines(),
+{
+        BedFileStreamBed {
+            bed: StreamingLineReader::new(buf_reader_new(file)),
+            parse: fnptr_parse_bed(),
+        }
+    }
 fn next(&mut self) -> (r: Option<Result<(&Str, BedEntry), BedValueError>>)
     ensures
         
@@ -511,6 +656,16 @@ fn next(&mut self) -> (r: Option<Result<(&Str, BedEntry), BedValueError>>)
 }
 
 impl BedFileStreamBedGraph {
+pub fn from_bedgraph_file(file: VBufRead) -> (r: BedFileStreamBedGraph)
+    ensures
+        
+        r.bed.lines() == file.lines(),
+{
+        BedFileStreamBedGraph {
+            bed: StreamingLineReader::new(buf_reader_new(file)),
+            parse: fnptr_parse_bedgraph(),
+        }
+    }
 fn next(&mut self) -> (r: Option<Result<(&Str, Value), BedValueError>>)
     ensures
         
